@@ -263,7 +263,7 @@ impl MergeEntry {
 
 impl PartialEq for MergeEntry {
     fn eq(&self, other: &Self) -> bool {
-        self.compare_to(other) == Ordering::Equal
+        self.cmp(other) == Ordering::Equal
     }
 }
 
@@ -277,8 +277,12 @@ impl PartialOrd for MergeEntry {
 
 impl Ord for MergeEntry {
     fn cmp(&self, other: &Self) -> Ordering {
-        // Reverse for min-heap behavior (we want smallest first)
-        other.compare_to(self)
+        // Reverse for min-heap behavior (we want smallest first). Rows with equal sort
+        // keys are taken from the run with the lower index first, so the merge is stable:
+        // it returns the same sequence as a stable sort of the concatenated runs.
+        other
+            .compare_to(self)
+            .then_with(|| other.run_index.cmp(&self.run_index))
     }
 }
 
